@@ -42,6 +42,7 @@ const basePrelude = `(set-logic ALL)
 (define-fun nil_iface () Iface (mk_iface 0 nil))
 (define-fun nil_func () Func (mk_func 0 nil))
 (define-fun-rec root ((a Addr)) Int (ite ((_ is base) a) (bid a) (ite ((_ is fld) a) (root (fpar a)) (root (epar a)))))
+(declare-fun atype (Addr) Int)
 (declare-fun slen_ (Str) Int)
 (declare-fun sat_ (Str Int) Int)
 (declare-fun slt_ (Str Str) Bool)
@@ -49,7 +50,7 @@ const basePrelude = `(set-logic ALL)
 (declare-fun ssub_ (Str Int Int) Str)
 (declare-const str_empty Str)
 (assert (= (slen_ str_empty) 0))
-(assert (forall ((s Str)) (! (>= (slen_ s) 0) :pattern ((slen_ s)))))
+(assert (forall ((s Str)) (! (and (>= (slen_ s) 0) (<= (slen_ s) 4611686018427387904)) :pattern ((slen_ s)))))
 (assert (forall ((s Str)) (! (=> (= (slen_ s) 0) (= s str_empty)) :pattern ((slen_ s)))))
 (assert (forall ((s Str) (i Int)) (! (and (<= 0 (sat_ s i)) (<= (sat_ s i) 255)) :pattern ((sat_ s i)))))
 (assert (forall ((a Str) (b Str)) (! (= (slen_ (sconcat_ a b)) (+ (slen_ a) (slen_ b))) :pattern ((sconcat_ a b)))))
@@ -84,6 +85,7 @@ var leafSorts = []string{"Int", "Bool", "Str", "F64", "Addr", "Slice", "Iface", 
 type structInfo struct {
 	name   string
 	st     *types.Struct
+	typ    types.Type
 	fields []string // sorts
 }
 
@@ -102,11 +104,44 @@ type Registry struct {
 	ifaceIDs    map[string]int
 	funcIDs     map[string]int
 	arrSorts    map[string]bool
+	typeIDs     map[string]int
+	arrElems    []types.Type
+	arrSeen     map[string]bool
+}
+
+// TypeID: identity of the Go type of a memory object/cell (by underlying type), used to rule out
+// aliasing between pointers of different pointee types.
+func (r *Registry) TypeID(t types.Type) int {
+	k := types.TypeString(t.Underlying(), nil)
+	if arr, ok := t.Underlying().(*types.Array); ok {
+		return r.ArrID(arr.Elem())
+	}
+	if v, ok := r.typeIDs[k]; ok {
+		return v
+	}
+	v := len(r.typeIDs) + 1
+	r.typeIDs[k] = v
+	return v
+}
+
+// ArrID: type id of "array of elem" objects (any length).
+func (r *Registry) ArrID(elem types.Type) int {
+	k := "[]" + types.TypeString(elem.Underlying(), nil)
+	if v, ok := r.typeIDs[k]; ok {
+		return v
+	}
+	v := len(r.typeIDs) + 1
+	r.typeIDs[k] = v
+	if !r.arrSeen[k] {
+		r.arrSeen[k] = true
+		r.arrElems = append(r.arrElems, elem)
+	}
+	return v
 }
 
 func NewRegistry() *Registry {
 	return &Registry{structByKey: map[string]*structInfo{}, tags: map[string]int{}, strLits: map[string]string{}, globals: map[string]int{},
-		mapMems: map[string]bool{}, declSeen: map[string]bool{}, ifaceIDs: map[string]int{}, funcIDs: map[string]int{}, arrSorts: map[string]bool{}}
+		mapMems: map[string]bool{}, declSeen: map[string]bool{}, ifaceIDs: map[string]int{}, funcIDs: map[string]int{}, arrSorts: map[string]bool{}, typeIDs: map[string]int{}, arrSeen: map[string]bool{}}
 }
 
 func (r *Registry) AddDecl(key, text string) {
@@ -214,7 +249,7 @@ func (r *Registry) structSort(t types.Type, st *types.Struct) string {
 	if si, ok := r.structByKey[key]; ok {
 		return si.name
 	}
-	si := &structInfo{st: st}
+	si := &structInfo{st: st, typ: t}
 	for i := 0; i < st.NumFields(); i++ {
 		si.fields = append(si.fields, r.SortOf(st.Field(i).Type()))
 	}
@@ -261,6 +296,21 @@ func (r *Registry) Prelude() string {
 			fmt.Fprintf(&sb, " (%s_dummy Int)", si.name)
 		}
 		sb.WriteString("))))\n")
+	}
+	// typed-heap axioms: the type of a field / element cell follows from the type of its parent
+	for i := 0; i < len(r.structs); i++ {
+		si := r.structs[i]
+		if si.typ == nil {
+			continue
+		}
+		sid := r.TypeID(si.typ)
+		for j := 0; j < si.st.NumFields(); j++ {
+			fmt.Fprintf(&sb, "(assert (forall ((p Addr)) (! (=> (= (atype p) %d) (= (atype (fld p %d)) %d)) :pattern ((fld p %d)))))\n", sid, j, r.TypeID(si.st.Field(j).Type()), j)
+		}
+	}
+	for i := 0; i < len(r.arrElems); i++ {
+		e := r.arrElems[i]
+		fmt.Fprintf(&sb, "(assert (forall ((p Addr) (i Int)) (! (=> (= (atype p) %d) (= (atype (elem p i)) %d)) :pattern ((elem p i)))))\n", r.ArrID(e), r.TypeID(e))
 	}
 	for i, s := range r.strOrder {
 		name := fmt.Sprintf("strlit_%d", i)
